@@ -330,7 +330,7 @@ fn run_history(h: &Hist, hi: usize, ctx: &mut Ctx) -> Result<Final, Violation> {
                 let lists_nonempty = model.values().all(|v| !matches!(v, Val::A(a) if a.is_empty()));
                 if is_complete(&model) && lists_nonempty {
                     ctx.probe("reparse-of-complete-entry");
-                    let text = metered!(ctx, 4096, sum.to_string());
+                    let __w = Work::start(); let text = sum.to_string(); __w.stop(ctx, text.len() + 256);
                     set_hash_seed(*seed);
                     match metered!(ctx, text.len(), Summary::from_str(&text)) {
                         Ok(parsed) => {
